@@ -103,12 +103,34 @@ def _worker_batch(args):
         data = f.read()
     _, status = os.waitpid(pid, 0)
     if not data:
+        if os.WIFSIGNALED(status) and not args[5:]:
+            # the interpreter died in native code (seen once: SIGSEGV): run the chunk again, one index per child,
+            # so that at most the offending run is lost - and counted
+            out = None
+            for i in args[2]:
+                try:
+                    o = _worker_batch(args[:2] + ([i],) + args[3:5] + ("retry",))
+                except RuntimeError:
+                    o = dict(n=0, nontrivial=0, sigs=set(), counters={"runs_lost_child_crashed": 1}, vtime=0.0,
+                             violations=[], samples=[], harness=[], declines=0)
+                if out is None:
+                    out = o
+                else:
+                    out["n"] += o["n"]
+                    out["nontrivial"] += o["nontrivial"]
+                    out["sigs"] |= o["sigs"]
+                    out["vtime"] += o["vtime"]
+                    for k, v in o["counters"].items():
+                        out["counters"][k] = out["counters"].get(k, 0) + v
+                    out["violations"].extend(o["violations"])
+                    out["harness"].extend(o["harness"])
+            return out
         raise RuntimeError(f"chunk {args[2][:1]}.. child exited with status {status} and no result")
     return pickle.loads(data)
 
 
 def _run_chunk(args):
-    name, verif_seed, indices, tier, wall_cap = args
+    name, verif_seed, indices, tier, wall_cap = args[:5]
     faulthandler.enable()
     faulthandler.dump_traceback_later(wall_cap, exit=True)
     import warnings
@@ -128,9 +150,11 @@ def _run_chunk(args):
         pass
 
     def _on_alarm(signum, frame):
+        # raised in the main thread at the next bytecode boundary; the chunk's child process is discarded
+        # right afterwards (see below), because an interrupted Zarr/NumPy call leaves no state worth keeping
         raise _RunTooSlow()
 
-    run_wall = int(getattr(mod, "RUN_WALL", 240))
+    run_wall = int(os.environ.get("VERIF_RUN_WALL") or getattr(mod, "RUN_WALL", 240))
     try:
         signal.signal(signal.SIGALRM, _on_alarm)
     except (ValueError, OSError):
@@ -148,13 +172,10 @@ def _run_chunk(args):
             # a workload that is merely expensive in real time (not a hang: hangs are virtual-time states):
             # counted, never reported as holding or as violating
             out["counters"]["runs_abandoned_wall_clock"] = out["counters"].get("runs_abandoned_wall_clock", 0) + 1
-            try:
-                from sim.loop import quiesce_zarr_loop
-
-                quiesce_zarr_loop(timeout=60)
-            except BaseException:  # noqa: BLE001
-                pass
-            continue
+            # the rest of the chunk is handed back unexecuted: continuing in a process whose IO thread was
+            # interrupted mid-call is not safe (a thorough run crashed with SIGSEGV doing exactly that)
+            out["unfinished"] = [i for i in indices if i > idx]
+            break
         except BaseException as e:  # noqa: BLE001
             out["harness"].append(
                 dict(index=idx, error=repr(e), tb=traceback.format_exc()[-4000:])
@@ -364,6 +385,8 @@ def main_check(name: str, tier: str, verif_seed: int, runs=None, minutes=None, p
                 except BaseException as e:  # noqa: BLE001
                     broken = f"worker died: {e!r}"
                     continue
+                if out.get("unfinished"):
+                    futs.add(ex.submit(_worker_batch, (name, verif_seed, out["unfinished"], tier, wall_cap)))
                 agg["n"] += out["n"]
                 agg["nontrivial"] += out["nontrivial"]
                 agg["sigs"] |= out["sigs"]
